@@ -1157,6 +1157,23 @@ fn float_forms<R: ModeTag, const B: Word>(c: &FlCase, ctx: &Ctx) -> Out {
     v.push(("abs val", fv!(a.clone().abs())));
     v.push(("a * a.sign()", fv!(a.clone() * a.sign())));
     agree(&mut out, "FBig abs", Ret, v);
+    // the sign operations are defined on the infinities as well (the sign lives in the exponent there)
+    {
+        let inf: FBig<R, B> = if c.sneg { FBig::NEG_INFINITY } else { FBig::INFINITY };
+        let mut v: Forms = Vec::new();
+        v.push(("neg val", fv!(-inf.clone())));
+        v.push(("neg ref", fv!(-&inf)));
+        v.push(("a * Sign::Negative", fv!(inf.clone() * Sign::Negative)));
+        v.push(("Sign::Negative * a", fv!(Sign::Negative * inf.clone())));
+        v.push(("a *= Sign::Negative", fv!({ let mut x = inf.clone(); x *= Sign::Negative; x })));
+        agree(&mut out, "FBig neg (infinity)", Ret, v);
+        let mut v: Forms = Vec::new();
+        v.push(("a * Sign::Positive", fv!(inf.clone() * Sign::Positive)));
+        v.push(("Sign::Positive * a", fv!(Sign::Positive * inf.clone())));
+        v.push(("a *= Sign::Positive", fv!({ let mut x = inf.clone(); x *= Sign::Positive; x })));
+        v.push(("clone", fv!(inf.clone())));
+        agree(&mut out, "FBig mul Sign::Positive (infinity)", Ret, v);
+    }
     let mut v: Forms = Vec::new();
     v.push(("inv val", fv!(a.clone().inv())));
     v.push(("inv ref", fv!((&a).inv())));
